@@ -104,7 +104,7 @@ func (g *Gen) lockRelease(st *State, ls *lockSite, what string) {
 }
 
 // monitorCall intercepts Lock/Unlock/Wait on monitored mutexes. Returns true when handled.
-func (g *Gen) monitorCall(st *State, c *ssa.CallCommon, static *ssa.Function) bool {
+func (g *Gen) monitorCall(st *State, c *ssa.CallCommon, static *ssa.Function, keys []string) bool {
 	if static == nil || len(c.Args) == 0 || g.W.monitors == nil {
 		return false
 	}
@@ -121,6 +121,22 @@ func (g *Gen) monitorCall(st *State, c *ssa.CallCommon, static *ssa.Function) bo
 		}
 	case "(*sync.Cond).Wait":
 		if ls := g.lockOf(st, c.Args[0], true); ls != nil {
+			// a call-site clause `callee Wait()` may put an oracle (requires) and ghost updates (set) in front of the wait:
+			// "whoever sleeps here has registered for the wake-up".  Nothing of it is assumed.
+			if g.spec != nil {
+				for _, cs := range g.spec.Callees {
+					for _, k := range keys {
+						if cs.Name == k {
+							g.calleeUse[cs]++
+							if len(cs.Ensures) > 0 {
+								g.unsupported("callee " + cs.Name + ": ensures on a monitored Wait is not supported (requires / set only)")
+							}
+							g.applyContract(st, contractApp{what: "callee " + cs.Name, binds: map[string]Val{}, requires: cs.Requires, sets: cs.Sets,
+								pure: true, rt: types.NewTuple(), clausePrefix: "callee " + cs.Name + " ", ownNames: true, mutGhosts: cs.MutGhosts})
+						}
+					}
+				}
+			}
 			g.lockRelease(st, ls, "Wait")
 			g.lockAcquire(st, ls)
 			return true
